@@ -58,7 +58,7 @@ func manifestMain() {
 		}},
 		"checks":         checks,
 		"not_applicable": na,
-		"notes":          "All claims are at level 'other': each check decides named structural clauses of its property on the current source of /repo and reports a construct (file:line, function, path, table entry) as the violation. See DESIGN.md sections 4-6 and 10. The checker is tested both ways on every thorough run: 180 seeded breaking changes under /verif/seeded must be detected, each by the check of the property it was written against (the 40 of round 4 are refactorings that carry a defect, each kept with its behaviour-preserving twin benign.diff; DESIGN.md 10.4), 192 behaviour-preserving changes under /verif/benign are applied and 178 must stay silent (the other 14 are documented limits, DESIGN.md 10.5). known_findings.json lists genuine defects (open or fixed).",
+		"notes":          "All claims are at level 'other': each check decides named structural clauses of its property on the current source of /repo and reports a construct (file:line, function, path, table entry) as the violation. See DESIGN.md sections 4-6 and 10. The checker is tested both ways on every thorough run: 180 seeded breaking changes under /verif/seeded must be detected, each by the check of the property it was written against (the 40 of round 4 are refactorings that carry a defect, each kept with its behaviour-preserving twin benign.diff; DESIGN.md 10.4), 240 behaviour-preserving changes under /verif/benign are applied and 224 must stay silent (the other 16 are documented limits, DESIGN.md 10.5). known_findings.json lists genuine defects (open or fixed).",
 	}
 	if na == nil {
 		doc["not_applicable"] = []map[string]string{}
